@@ -31,7 +31,7 @@ func init() {
 		},
 		Quick:    150000,
 		Thorough: 8000000,
-		Require:  []string{"pool.recyclingOn", "monitor.dropsMessage", "handler.busyWhileQueueFull", "cut.insideHeader", "read.severalFrames", "read.singleByte", "oversize.headerSupplied", "frame.bodyLen=13+0", "frame.bodyLen=269+0", "frame.bodyLen=65805+0"},
+		Require:  []string{"pool.recyclingOn", "monitor.dropsMessage", "handler.busyWhileQueueFull", "cut.insideHeader", "read.severalFrames", "read.singleByte", "oversize.headerSupplied", "read.lastBytesTogetherWithEOF", "frame.bodyLen=13+0", "frame.bodyLen=269+0", "frame.bodyLen=65805+0"},
 		Assume: []string{
 			"'header' of a frame = length nibble, extended length, code and token; the connection must be closed at the quiescent point after the last header byte of an oversize frame was supplied (the body is withheld by the simulator)",
 			"generated frames are either clearly within the maximum (total frame length <= max) or clearly above it (declared options+payload length > max), so the oracle does not depend on which of the two the implementation compares",
@@ -316,6 +316,8 @@ func c07Run(e *Env, tlsShim bool) {
 		return nil
 	}
 	closed := closedFn
+	finAtEnd := over == nil && !busy && !monitorOn && t.Chance(1, 4)
+	finSent := false
 
 	for released < limit && e.Budget() {
 		f := frameAt(released)
@@ -363,6 +365,16 @@ func c07Run(e *Env, tlsShim bool) {
 		}
 		e.Fault("stream.segment")
 		releasedBeforeLast = released
+		if finAtEnd && released+n == limit {
+			// the peer closes right behind its last message: the read that takes the last bytes reports the end of the
+			// stream as well
+			a.EOFWithData = true
+			a.PeerFIN()
+			finSent = true
+			e.Fault("stream.finWithLastBytes")
+			e.Probe("read.lastBytesTogetherWithEOF")
+			e.Logf("the peer's FIN follows the last byte")
+		}
 		a.ReleaseIn(n)
 		released += n
 		e.Logf("release %d bytes (offset now %d/%d)", n, released, limit)
@@ -413,7 +425,7 @@ func c07Run(e *Env, tlsShim bool) {
 		if !closed() {
 			e.Violate("C07.R4", fmt.Sprintf("oversize-not-closed:declared>2^32=%v", over.declared > 0xFFFFFFFF), "frame %d declares %d bytes (maximum %d); its complete header was supplied and the body withheld, but the connection is still open", indexOf(frames, over), over.declared, maxSize)
 		}
-	} else if closed() && over == nil {
+	} else if closed() && over == nil && !finSent {
 		e.Violate("C07.R1", "closed-on-valid-stream", "connection closed itself on a stream of valid frames within the maximum: %v", errsFn())
 	}
 	for i := range have {
@@ -454,7 +466,7 @@ func c07Run(e *Env, tlsShim bool) {
 			e.Probe("oversize.sameReadAsEarlierMessages")
 		}
 	}
-	if len(have) < mustHave && !(closed() && over == nil) {
+	if len(have) < mustHave && !(closed() && over == nil && !finSent) {
 		e.Violate("C07.R1", "message-not-delivered", "%d messages delivered, %d complete deliverable messages were supplied ahead of anything that closes the connection", len(have), mustHave)
 	}
 	// R2: every Ping that was completely supplied before the oversize frame got exactly one Pong with its token
